@@ -55,7 +55,7 @@ func orderSources(f *core.Func) []OrderSource {
 			name := core.CalleeName(info, x)
 			switch {
 			case name == "slices.Sorted" || name == "slices.SortedFunc" || name == "slices.SortedStableFunc":
-				if len(x.Args) >= 1 {
+				if len(x.Args) >= 1 && naturalSort(info, x) {
 					if inner, ok := ast.Unparen(x.Args[0]).(*ast.CallExpr); ok {
 						sortedWrapped[inner] = true
 					}
@@ -66,7 +66,7 @@ func orderSources(f *core.Func) []OrderSource {
 				out = append(out, OrderSource{"reflect-mapkeys", core.ExprStr(x), x.Pos(), x})
 			case name == "maps.Keys" || name == "maps.Values" || name == "maps.All":
 				if !sortedWrapped[x] {
-					out = append(out, OrderSource{"maps-iter", core.ExprStr(x) + " not directly wrapped in slices.Sorted", x.Pos(), x})
+					out = append(out, OrderSource{"maps-iter", core.ExprStr(x) + " not directly wrapped in slices.Sorted (or sorted with a comparator other than the keys' natural order: ties keep map order, and keys such as token.Pos depend on the parse schedule)", x.Pos(), x})
 				} else {
 					out = append(out, OrderSource{"maps-sorted", "slices.Sorted(" + core.ExprStr(x) + ")", x.Pos(), x})
 				}
@@ -92,12 +92,123 @@ var sortCallees = map[string]bool{
 	"sort.Sort": true, "sort.Stable": true, "slices.Sort": true, "slices.SortFunc": true, "slices.SortStableFunc": true,
 }
 
-// isSortOf: node contains a sorting call whose first operand mentions x.
+// isSortOf: node contains a sorting call whose first operand mentions x and
+// whose order is the natural order of the elements (see naturalSort).
 func isSortOf(info *types.Info, n ast.Node, x *types.Var) bool {
 	for _, c := range core.Calls(n, true) {
-		if sortCallees[core.CalleeName(info, c)] && len(c.Args) >= 1 && core.Mentions(info, c.Args[0], x) {
+		if sortCallees[core.CalleeName(info, c)] && len(c.Args) >= 1 && core.Mentions(info, c.Args[0], x) && naturalSort(info, c) {
 			return true
 		}
+	}
+	return false
+}
+
+// naturalSort: the sorting call orders its elements by their own value with a
+// total order: sort.Strings/Ints/Float64s, slices.Sort/Sorted, sort.Sort/Stable
+// of a sort.StringSlice/IntSlice/Float64Slice, or a comparator that is literally
+// the elements' natural comparison (cmp.Compare / strings.Compare / a < b on the
+// two elements, either direction). Any other comparator is not accepted as
+// establishing a schedule-independent order: elements that compare equal keep
+// the order of the (unordered) input, and keys such as token.Pos or pointers
+// depend on the schedule themselves.
+func naturalSort(info *types.Info, c *ast.CallExpr) bool {
+	name := core.CalleeName(info, c)
+	switch name {
+	case "sort.Strings", "sort.Ints", "sort.Float64s", "slices.Sort", "slices.Sorted":
+		return true
+	case "sort.Sort", "sort.Stable":
+		if len(c.Args) != 1 {
+			return false
+		}
+		a := ast.Unparen(c.Args[0])
+		if rc, ok := a.(*ast.CallExpr); ok && core.CalleeName(info, rc) == "sort.Reverse" && len(rc.Args) == 1 {
+			a = ast.Unparen(rc.Args[0])
+		}
+		switch core.NamedTypeName(info.TypeOf(a)) {
+		case "sort.StringSlice", "sort.IntSlice", "sort.Float64Slice":
+			return true
+		}
+		return false
+	case "sort.Slice", "sort.SliceStable":
+		if len(c.Args) != 2 {
+			return false
+		}
+		lit, ok := ast.Unparen(c.Args[1]).(*ast.FuncLit)
+		if !ok || len(lit.Body.List) != 1 {
+			return false
+		}
+		ret, ok := lit.Body.List[0].(*ast.ReturnStmt)
+		if !ok || len(ret.Results) != 1 {
+			return false
+		}
+		b, ok := ast.Unparen(ret.Results[0]).(*ast.BinaryExpr)
+		if !ok || (b.Op != token.LSS && b.Op != token.GTR) {
+			return false
+		}
+		var ps []*types.Var
+		for _, fld := range lit.Type.Params.List {
+			for _, n := range fld.Names {
+				v, _ := info.ObjectOf(n).(*types.Var)
+				ps = append(ps, v)
+			}
+		}
+		if len(ps) != 2 {
+			return false
+		}
+		elem := func(e ast.Expr, p *types.Var) bool {
+			ix, ok := ast.Unparen(e).(*ast.IndexExpr)
+			return ok && core.SameRef(info, ix.X, c.Args[0]) && core.VarOf(info, ix.Index) == p
+		}
+		return (elem(b.X, ps[0]) && elem(b.Y, ps[1])) || (elem(b.X, ps[1]) && elem(b.Y, ps[0]))
+	case "slices.SortFunc", "slices.SortStableFunc", "slices.SortedFunc", "slices.SortedStableFunc":
+		if len(c.Args) != 2 {
+			return false
+		}
+		isCmp := func(e ast.Expr) bool {
+			e = ast.Unparen(e)
+			if ix, ok := e.(*ast.IndexExpr); ok {
+				e = ix.X
+			}
+			var id *ast.Ident
+			switch x := e.(type) {
+			case *ast.Ident:
+				id = x
+			case *ast.SelectorExpr:
+				id = x.Sel
+			}
+			if id == nil {
+				return false
+			}
+			fn, ok := info.ObjectOf(id).(*types.Func)
+			return ok && (fn.FullName() == "cmp.Compare" || fn.FullName() == "strings.Compare" || fn.FullName() == "bytes.Compare")
+		}
+		if isCmp(c.Args[1]) {
+			return true
+		}
+		lit, ok := ast.Unparen(c.Args[1]).(*ast.FuncLit)
+		if !ok || len(lit.Body.List) != 1 {
+			return false
+		}
+		ret, ok := lit.Body.List[0].(*ast.ReturnStmt)
+		if !ok || len(ret.Results) != 1 {
+			return false
+		}
+		cc, ok := ast.Unparen(ret.Results[0]).(*ast.CallExpr)
+		if !ok || !isCmp(cc.Fun) || len(cc.Args) != 2 {
+			return false
+		}
+		var ps []*types.Var
+		for _, fld := range lit.Type.Params.List {
+			for _, n := range fld.Names {
+				v, _ := info.ObjectOf(n).(*types.Var)
+				ps = append(ps, v)
+			}
+		}
+		if len(ps) != 2 {
+			return false
+		}
+		a0, a1 := core.VarOf(info, cc.Args[0]), core.VarOf(info, cc.Args[1])
+		return a0 != nil && a1 != nil && ((a0 == ps[0] && a1 == ps[1]) || (a0 == ps[1] && a1 == ps[0]))
 	}
 	return false
 }
